@@ -347,17 +347,25 @@ type CompCase struct {
 	Name     string    `json:"name"` // gzip | snappy | zstd
 	Payloads []Payload `json:"payloads"`
 	Workers  int       `json:"workers"`
+	Rounds   int       `json:"rounds"` // round trips per worker and payload (many rounds only with small payloads)
 }
 
 func genComp(t *rapid.T) CompCase {
-	c := CompCase{Name: rapid.SampledFrom([]string{"gzip", "snappy", "zstd"}).Draw(t, "name"), Workers: rapid.SampledFrom([]int{1, 4, 16}).Draw(t, "workers")}
+	c := CompCase{Name: rapid.SampledFrom([]string{"gzip", "snappy", "zstd"}).Draw(t, "name"), Workers: rapid.SampledFrom([]int{1, 4, 16, 64}).Draw(t, "workers")}
 	n := rapid.IntRange(1, 6).Draw(t, "n")
 	maxBig := 1 << 20
 	if vt.Thorough() {
 		maxBig = 8 << 20
 	}
+	c.Rounds = rapid.SampledFrom([]int{3, 3, 30, 400}).Draw(t, "rounds")
 	for i := 0; i < n; i++ {
 		p := Payload{Seed: rapid.IntRange(1, 1<<20).Draw(t, "seed")}
+		if c.Rounds > 3 {
+			// hammering the pooled state: many quick round trips of small payloads
+			p.Kind, p.N = rapid.SampledFrom([]string{"zeros", "random", "text"}).Draw(t, "kind"), rapid.IntRange(1, 2000).Draw(t, "smalln")
+			c.Payloads = append(c.Payloads, p)
+			continue
+		}
 		switch rapid.IntRange(0, 9).Draw(t, "pclass") {
 		case 0:
 			p.Kind, p.B = "literal", []byte{}
@@ -425,7 +433,7 @@ func runComp(c CompCase, o *vt.Obs) *vt.Failure {
 		wg.Add(1)
 		go func(wkr int) {
 			defer wg.Done()
-			for round := 0; round < 3; round++ {
+			for round := 0; round < max(c.Rounds, 1); round++ {
 				for i := range datas {
 					idx := (i + wkr) % len(datas)
 					if err := roundTrip(comp, datas[idx]); err != nil {
@@ -448,6 +456,7 @@ func runComp(c CompCase, o *vt.Obs) *vt.Failure {
 	if c.Workers > 1 {
 		o.Label("concurrent-users")
 	}
+	o.LabelN("round-trips:"+c.Name, c.Workers*max(c.Rounds, 1)*len(c.Payloads))
 	o.NonTrivial = c.Workers > 1 && len(c.Payloads) >= 2
 	o.Describe = func() string { return fmt.Sprintf("%s workers=%d payloads=%+v", c.Name, c.Workers, c.Payloads) }
 	return nil
@@ -464,19 +473,37 @@ type FrameCase struct {
 	Chunks []int     `json:"chunks"` // read sizes handed to snapshot.Writer, cycled (chunk boundaries)
 }
 
+// blockSize is the amount of uncompressed data the snapshot file's buffered snappy writer puts into one block when it is fed
+// with writes smaller than a block (measured: 65528); a reader never returns data across a block boundary in one Read.
+const blockSize = 65528
+
 func genFrame(t *rapid.T) FrameCase {
 	c := FrameCase{}
 	n := rapid.IntRange(0, 12).Draw(t, "n")
+	// aligned cases keep every record below one block, so that block boundaries sit at multiples of blockSize and records can be
+	// aimed at them
+	aligned := rapid.Bool().Draw(t, "aligned")
+	off := 0 // uncompressed offset in the snapshot file: every record is an 8-byte length prefix + payload
 	for i := 0; i < n; i++ {
 		p := Payload{Seed: rapid.IntRange(1, 1<<20).Draw(t, "seed")}
-		switch rapid.IntRange(0, 9).Draw(t, "class") {
-		case 0:
+		cls := rapid.IntRange(0, 9).Draw(t, "class")
+		switch {
+		case cls == 0 && !aligned:
 			p.Kind, p.N = "random", rapid.IntRange(100000, 1<<20).Draw(t, "big")
-		case 1:
-			p.Kind, p.N = "zeros", rapid.IntRange(1, 70000).Draw(t, "zeros")
+		case cls == 1:
+			p.Kind, p.N = "zeros", rapid.IntRange(1, 60000).Draw(t, "zeros")
+		case cls <= 5 && aligned:
+			// the NEXT record's length prefix starts 1-7 bytes before a block boundary (k=0: exactly on it, k=8: ends on it)
+			k := rapid.IntRange(0, 8).Draw(t, "straddle")
+			target := ((off+8)/blockSize+1)*blockSize - k
+			p.Kind, p.N = rapid.SampledFrom([]string{"random", "text"}).Draw(t, "kind"), target-(off+8)
+			if p.N <= 0 {
+				p.N += blockSize
+			}
 		default:
 			p.Kind, p.N = rapid.SampledFrom([]string{"random", "text"}).Draw(t, "kind"), rapid.IntRange(1, 300).Draw(t, "small")
 		}
+		off += 8 + p.N
 		c.Msgs = append(c.Msgs, p)
 	}
 	c.Chunks = rapid.SliceOfN(rapid.SampledFrom([]int{1, 2, 3, 7, 8, 9, 15, 16, 17, 100, 4096, 65536, 1 << 20}), 1, 6).Draw(t, "chunks")
@@ -608,6 +635,14 @@ func runFrame(c FrameCase, o *vt.Obs) *vt.Failure {
 	if small && len(msgs) >= 2 {
 		o.Label("chunk-boundary-inside-a-length-prefix")
 		o.NonTrivial = true
+	}
+	offs := 0
+	for _, m := range msgs[:max(0, len(msgs)-1)] {
+		offs += 8 + len(m)
+		if r := offs % blockSize; r > blockSize-8 {
+			o.Label("length-prefix-straddles-a-64KiB-block-boundary")
+			o.NonTrivial = true
+		}
 	}
 	o.LabelN("chunks-shipped", len(pipe.frames))
 	o.Describe = func() string {
